@@ -81,6 +81,26 @@ func genPackPath(r *repo, o *out) {
 		return true
 	})
 	o.def("kvfsReaderFlags", "List String", leanStrList(rflags), "flags with which kvfs.OpenReader opens the ware")
+	// cache.Unpack: the condition of the first `if` whose body returns a usage error about the ware ID, when it stands
+	// before the first use of ShelfFor
+	guard := "absent"
+	if fd := r.funcDecl("transmat/mixins/cache", "cache", "Unpack"); fd != nil {
+		seenShelf := false
+		ast.Inspect(fd, func(x ast.Node) bool {
+			switch n := x.(type) {
+			case *ast.CallExpr:
+				if id, ok := n.Fun.(*ast.Ident); ok && id.Name == "ShelfFor" {
+					seenShelf = true
+				}
+			case *ast.IfStmt:
+				if !seenShelf && guard == "absent" && strings.Contains(r.src(n.Cond), "wareID.Hash") && strings.Contains(r.src(n.Body), "rio.ErrUsage") {
+					guard = r.src(n.Cond)
+				}
+			}
+			return true
+		})
+	}
+	o.def("cacheUnpackHashGuard", "String", leanStr(guard), "cache.Unpack: the guard on wareID.Hash that precedes ShelfFor")
 }
 
 func argsSrc(r *repo, ce *ast.CallExpr) string {
